@@ -31,6 +31,7 @@ from ..tlc import MachineryError, fn_to_dict
 
 ALL_TPLS = ["chain", "cycle", "bi", "split", "homo", "tri"]
 ALL_ORDS = ("std", "swap", "rev", "swaprev")
+THREE_TPLS = ["tri3", "split3", "homo3", "trimer"]   # three units of base stoichiometry on one side
 DOUBLED_TPLS = ["homo", "dimer"]          # a compound with stoichiometric coefficient 2 (substrate side / product side)
 
 CFG = """CONSTANTS
@@ -53,6 +54,7 @@ INVARIANT ThUniform
 INVARIANT ThZero
 INVARIANT ThInvol
 INVARIANT ThParam
+INVARIANT ThScale
 INVARIANT ThSafe
 INVARIANT Emit
 CHECK_DEADLOCK FALSE
@@ -163,6 +165,18 @@ def observe(scn: dict) -> dict:
             obs["lin"].append({"de": {k: float(v) for k, v in de.to_dict().items()}})
         except Exception as e:  # noqa: BLE001
             obs["lin"].append({"error": f"{type(e).__name__}: {str(e)[:200]}"})
+    # the same case with amounts expressed in a larger unit (pools and fluxes 2^-unit times the numbers)
+    obs["unit"] = []
+    for ev in scn.get("unit_evals", []):
+        try:
+            u = 2.0 ** -int(ev["unit"])
+            m = mapper.build_model(concs=pd.Series({k: v * u for k, v in pool.items()}, dtype=float),
+                                   fluxes=pd.Series({k: v * u for k, v in flux.items()}, dtype=float),
+                                   external_label=float(lk.frac(ev["x"])))
+            e = {k: float(lk.frac(v)) for k, v in fn_to_dict(ev["e"]).items()}
+            obs["unit"].append({"de": {k: float(v) for k, v in m.get_right_hand_side(e).to_dict().items()}})
+        except Exception as ex:  # noqa: BLE001
+            obs["unit"].append({"error": f"{type(ex).__name__}: {str(ex)[:200]}"})
     # the external enrichment as a parameter of the built model: build with x0, then update_parameter("EXT", x)
     obs["hist"] = []
     for h in scn.get("hist", []):
@@ -204,6 +218,18 @@ def judge(scn: dict, obs: dict) -> dict | None:
                         "e": {k: str(lk.frac(q)) for k, q in fn_to_dict(ev["e"]).items()},
                         "expected": str(v), "observed": o["de"][n],
                         "isotopomer_model_says": obs["iso_rates"].get(n) if ev is scn["evals"][0] else None}
+    # (b') the linear model built from pools / fluxes expressed in a larger unit
+    for ev, o in zip(scn.get("unit_evals", []), obs.get("unit", [])):
+        if "error" in o:
+            return {"what": f"build refused: pools and fluxes scaled by 2^-{ev['unit']}", "observed": o["error"]}
+        exp = {k: lk.frac(v) for k, v in fn_to_dict(ev["de"]).items()}
+        if set(exp) != set(o["de"]):
+            return {"what": "variables of the linear model", "expected": sorted(exp), "observed": sorted(o["de"])}
+        for n, v in exp.items():
+            if not _close(v, o["de"][n]):
+                return {"what": f"linear model: pools and fluxes scaled by 2^-{ev['unit']} (pools below 1e-6)", "position": n,
+                        "x": str(lk.frac(ev["x"])), "expected": str(v), "observed": o["de"][n],
+                        "pools": {k: float(p) * 2.0 ** -int(ev["unit"]) for k, p in fn_to_dict(scn["pool"]).items()}}
     # (c) the linear model after the external enrichment was changed on the built model
     for h, steps in zip(scn.get("hist", []), obs["hist"]):
         trail = [str(lk.frac(h["x0"]))]
@@ -467,6 +493,11 @@ def run(ctx: Ctx) -> int:
             dict(name="doubled", what="exhaustive: 2A->B and A->2B networks, label counts 1..2 (doubled compound with 2 positions), "
                  "involutive maps only, max(S,P)<=4, every combination of the two non-uniform distributions",
                  tpls=DOUBLED_TPLS, maxnl=2, maxl=4, invol=True, distall=True, dists=(3, 4)),
+            # three units on one side of a reaction (third unit's positions start after the first two units'), 2A+B->C with
+            # the doubled substrate mentioned non-adjacently in the rate arguments; involutive maps, unequal enrichments
+            dict(name="three", what="exhaustive: A+B+C->D, A->B+C+D, 2A+B->C, A->3B networks, label counts 1..2, involutive maps only, "
+                 "max(S,P)<=3, every combination of the two non-uniform distributions",
+                 tpls=THREE_TPLS, maxnl=2, maxl=3, invol=True, distall=True, dists=(3, 4)),
             # declaration order of variables / reactions and order of the compounds inside a stoichiometry dict as
             # explicit dimensions for the merge and the split (B + A -> C declared against the variable order etc.)
             dict(name="orders", what="exhaustive: A+B->C and A->B+C networks in all four presentation orders (compounds of a side "
@@ -489,12 +520,15 @@ def run(ctx: Ctx) -> int:
                  "involutive maps only, max(S,P)<=6, every combination of the two non-uniform distributions",
                  tpls=DOUBLED_TPLS, maxnl=3, maxl=6, invol=True, distall=True, dists=(3, 4)),
             dict(name="orders", what="exhaustive: A+B->C and A->B+C networks in all four presentation orders, label counts 1..2, "
-                 "involutive maps only, max(S,P)<=4, every combination of the two non-uniform distributions",
-                 tpls=["bi", "split"], maxnl=2, maxl=4, invol=True, ords=ALL_ORDS, distall=True, dists=(3, 4)),
+                 "involutive maps only, max(S,P)<=4",
+                 tpls=["bi", "split"], maxnl=2, maxl=4, invol=True, ords=ALL_ORDS),
+            dict(name="three", what="exhaustive: A+B+C->D, A->B+C+D, 2A+B->C, A->3B networks, label counts 1..2, involutive maps only, "
+                 "max(S,P)<=4, every combination of the two non-uniform distributions",
+                 tpls=THREE_TPLS, maxnl=2, maxl=4, invol=True, distall=True, dists=(3, 4)),
             dict(name="orders_all", what="exhaustive: A+B->C and A->B+C networks, orders swap and swaprev, label counts 1..2, all maps max(S,P)<=3",
                  tpls=["bi", "split"], maxnl=2, maxl=3, ords=("swap", "swaprev")),
-            dict(name="doubled_all", what="exhaustive: A->2B network, label counts 1..2, all maps max(S,P)<=4, non-uniform distributions",
-                 tpls=["dimer"], maxnl=2, maxl=4, distall=True, dists=(3, 4)),
+            dict(name="doubled_all", what="exhaustive: A->2B network, label counts 1..2, all maps max(S,P)<=3, non-uniform distributions",
+                 tpls=["dimer"], maxnl=2, maxl=3, distall=True, dists=(3, 4)),
         ]
     scns = tlc_families(ctx, rep, fams)
     rep.exhaustive = True
@@ -514,12 +548,15 @@ def run(ctx: Ctx) -> int:
     n_dbl = sum(1 for s in scns if doubled_case(s))
     if n_dbl < 100:
         raise MachineryError(f"only {n_dbl} involutive cases with a doubled multi-position compound and unequal enrichments")
+    n_three = sum(1 for s in scns if s["involutive"] and s["tpl"] in THREE_TPLS)
+    if n_three < 100:
+        raise MachineryError(f"only {n_three} involutive cases with three units on one side of a reaction")
     n_ord = sum(1 for s in scns if s["involutive"] and s.get("ord") in ("swap", "swaprev") and s["tpl"] in ("bi", "split"))
     if n_ord < 100:
         raise MachineryError(f"only {n_ord} involutive merge/split cases whose compounds are written against the declaration order")
     rep.notes["cases"] = {"total": len(scns), "all_maps_involutive": n_inv, "doubled_multi_position_involutive": n_dbl,
-                          "merge_split_against_declaration_order_involutive": n_ord,
-                          "by_template": {t: sum(1 for s in scns if s["tpl"] == t) for t in ALL_TPLS + ["dimer"]}}
+                          "merge_split_against_declaration_order_involutive": n_ord, "three_units_on_a_side_involutive": n_three,
+                          "by_template": {t: sum(1 for s in scns if s["tpl"] == t) for t in ALL_TPLS + ["dimer"] + THREE_TPLS}}
     # ---- binding self-test: one corrupted expected value must be noticed by the comparison ---------------------
     probe = next(s for s in scns if s["involutive"] and s["tpl"] == "bi")
     probe_obs = observe(probe)
@@ -545,7 +582,7 @@ def run(ctx: Ctx) -> int:
         if bad is None:
             agree_inv += 1 if scn["involutive"] else 0
         else:
-            slim = {k: scn[k] for k in ("tpl", "ord", "b", "dk", "pool", "flux", "y", "involutive", "evals", "hist")}
+            slim = {k: scn[k] for k in ("tpl", "ord", "b", "dk", "pool", "flux", "y", "involutive", "evals", "hist", "unit_evals")}
             rep.mismatch(slim, bad, classify(scn, bad))
     rep.notes["involutive_cases_conforming"] = agree_inv
     for s in [x for x in scns if x["involutive"] and nontrivial(x)][:: max(1, n_inv // 3)][:3]:
